@@ -1,6 +1,6 @@
 #!/bin/sh
 # Build the framework from files on disk only (offline): regenerate Gen/ from /repo, build the
-# Lean library (kernel-checks every theorem, ~3-4 min from scratch) and the model driver.
+# Lean library (kernel-checks every theorem, about 15 min from scratch on 16 cores) and the model driver.
 set -e
 cd "$(dirname "$0")"
 /venv/bin/python tools/extract.py --repo "${VERIF_REPO:-/repo}"
